@@ -43,6 +43,20 @@ func (self ValueString) Fields() (map[string]*Value, *Interrupt) {
 			}
 			return NewValueString(strings.Repeat(self.Inner, count)), nil
 		}),
+		"starts_with": NewValueBuiltinFunction(func(executor Executor, cancelCtx *context.Context, span errors.Span, args ...Value) (*Value, *Interrupt) {
+			test := args[0].(ValueString).Inner
+			return NewValueBool(strings.HasPrefix(self.Inner, test)), nil
+		}),
+		"substring": NewValueBuiltinFunction(func(executor Executor, cancelCtx *context.Context, span errors.Span, args ...Value) (*Value, *Interrupt) {
+			upper := args[0].(ValueInt).Inner
+
+			if upper < 0 || upper >= int64(len(self.Inner)) {
+				return nil, NewThrowInterrupt(span, "index out of range")
+			}
+
+			sub := self.Inner[0:upper]
+			return NewValueString(sub), nil
+		}),
 		"split": NewValueBuiltinFunction(func(executor Executor, cancelCtx *context.Context, span errors.Span, args ...Value) (*Value, *Interrupt) {
 			sep := args[0].(ValueString).Inner
 			list := strings.Split(self.Inner, sep)
